@@ -69,6 +69,13 @@ VerdictGraph(ev) ==
      ELSE IF jp # "ok" THEN "graph_" \o jp
      ELSE IF jc # "ok" THEN "graph_" \o jc
      ELSE IF Len(ev.S) = 1 /\ DistinctKmers(ev.S[1], ev.k) /\ ~ch[1] /\ ev.cons # SeqDigits(ev.S[1]) THEN "graph_single_unchanged"
+     ELSE IF "fmin" \in DOMAIN ev /\ ev.fmin > 0 THEN
+          (* second stage of the graph's life: the k-mers lighter than fmin removed, the questions asked again *)
+          LET N2 == {n \in N : W[n] >= ev.fmin}
+              W2 == [n \in N2 |-> W[n]]
+          IN IF ev.len2 # Cardinality(N2) THEN "graph_node_count_after_filter"
+             ELSE IF (ev.cyc2 = 1) # CycleAndHeaviest(N2, W2)[1] THEN "graph_has_cycle_after_filter"
+             ELSE "ok"
      ELSE "ok"
 
 (* obiconsensus.BuildConsensus(S, k0, min_cov = 0) on two sequences or more: the graph of the k-mer size   *)
@@ -82,7 +89,10 @@ VerdictCons(ev) ==
            N  == DOMAIN W
            ch == CycleAndHeaviest(N, W)
            jc == JudgeConsensus(ev.cons, ev.kused, N, W, ch)
-       IN IF jc = "ok" THEN "ok" ELSE "consensus_build_" \o jc
+           top == CHOOSE m \in {W[n] : n \in N} : \A n \in N : W[n] <= m
+       IN IF jc # "ok" THEN "consensus_build_" \o jc
+          ELSE IF "kmax" \in DOMAIN ev /\ ev.kmax >= 0 /\ N # {} /\ ev.kmax # top THEN "consensus_build_max_weight"
+          ELSE "ok"
 
 (* kind "qry": an index built from the references, Query of s and of its reverse complement r (hit[i] = 1 when *)
 (* reference i is among the answers), the same queries asked by several goroutines at once (conc = number of   *)
